@@ -76,6 +76,9 @@ var rules = []fileRule{
 	{glob: "net/ntske/ntske_ip.go", substs: netSubsts},
 	{glob: "core/sync/sync.go", substs: []subst{{"context", "WithTimeout", "simsync", "WithTimeout"}}},
 	{glob: "driver/clocks/sysclk_linux.go", substs: kernSubsts, yieldRecv: []string{"SystemClock"}},
+	{glob: "net/ntske/ntske.go",
+		substs:   []subst{{"sync", "Mutex", "simsync", "Mutex"}, {"sync", "RWMutex", "simsync", "RWMutex"}},
+		yieldFns: []string{"packsimple", "packheader"}},
 	{glob: "net/ntske/provider.go",
 		substs:    []subst{{"sync", "Mutex", "simsync", "Mutex"}, {"sync", "RWMutex", "simsync", "RWMutex"}},
 		yieldRecv: []string{"Provider"}},
